@@ -242,7 +242,88 @@ def status_trace(cfg, k, ops, ids):
     return out
 
 
+# ---------- the same statement with the REAL replication stack between real engines ----------
+def tcp_case(sc):
+    """2-3 real engines replicating through their real BoboDistributedTCP (sim_cluster.TcpCluster) under link faults;
+    after the links heal and the backlogs were retried: same partial runs at the same positions everywhere, and a run
+    completed anywhere is reported completed everywhere"""
+    from bobocep.cep.engine.decider.pubsub import BoboDeciderSubscriber
+    cfg, n = sc["cfg"], sc["n"]
+    ed = dict(cfg=cfg, tr=0, td=0, tp=0, tf=0, early=True, local_only=True, datagen=[], act=[])
+    cl = SC.TcpCluster(ed, n)
+    comp = [set() for _ in range(n)]
+
+    def spy(k):
+        class Spy(BoboDeciderSubscriber):
+            def on_decider_update(self, completed, halted, updated, local):
+                comp[k].update(r.run_id for r in completed)
+        return Spy()
+    for k in range(n):
+        cl.net.nodes[k].engine.decider.subscribe(spy(k))
+    for st in list(sc["steps"]) + [("heal",), ("wait", 6), ("wait", 6), ("wait", 6)]:
+        if st[0] == "in":
+            cl.input(st[1], st[2])
+        elif st[0] == "link":
+            cl.link(st[1], st[2], st[3])
+        elif st[0] == "heal":
+            cl.heal()
+        else:
+            cl.wait(st[1])
+    tabs = [sorted((r.run_id, r.block_index, r.history().size()) for r in cl.nodes[k][0].decider.all_runs()) for k in range(n)]
+    faults = sum(1 for m in cl.net.wire if m.get("kind") == "refused" or (m.get("kind") == "msg" and not m.get("sender_ok", True)))
+    fail = None
+    if any(t != tabs[0] for t in tabs):
+        fail = dict(signature="replicas-differ-at-quiescence-through-tcp",
+                    what="after the links healed and the backlogs were retried the instances hold different partial runs: %s" % tabs)
+    elif any(c != comp[0] for c in comp):
+        fail = dict(signature="completed-not-reported-everywhere-through-tcp",
+                    what="completed runs reported per instance: %s" % [sorted(c) for c in comp])
+    return fail, faults > 0 and (any(tabs) or any(comp))
+
+
+def gen_tcp(ctx):
+    rng = ctx.rng
+    out = []
+    pats = [G.pattern(1, G.assign(["R", "R", "R"], 0, "distinct"), (), [("deq", 4)], False),
+            G.pattern(1, G.assign(["R", "RL", "R"], 0, "distinct"), (), (), False)]
+    # one message fails towards TWO peers at once; the links come back at different times, inside the resync period
+    for p in pats:
+        cfg = dict(phen=[(1, [p])], maxcache=100, idbase=1000)
+        for last in (3, 4):
+            for first_back in (1, 2):
+                other = 3 - first_back
+                out.append(dict(cfg=cfg, n=3, steps=[("in", 0, 1), ("in", 0, 2), ("link", 0, 1, "down"), ("link", 0, 2, "down"),
+                                                     ("in", 0, last), ("link", 0, first_back, "up"), ("wait", 6),
+                                                     ("link", 0, other, "up"), ("wait", 6)]))
+    for _ in range(120 if ctx.quick else 2000):
+        n = rng.choice([2, 3, 3])
+        cfg = dict(phen=[(1, [rng.choice(pats)])], maxcache=100, idbase=1000)
+        steps = []
+        for _ in range(rng.randint(4, 9)):
+            r = rng.random()
+            if r < 0.3:
+                i, j = rng.sample(range(n), 2)
+                steps.append(("link", i, j, rng.choice(["fail", "down", "down"])))
+            elif r < 0.42:
+                steps.append(("heal",))
+            elif r < 0.52:
+                steps.append(("wait", rng.choice([1, 6, 6, 11])))
+            steps.append(("in", rng.randrange(n), rng.randint(1, 4)))
+        out.append(dict(cfg=cfg, n=n, steps=steps))
+    return out
+
+
+def tcp_half(ctx, res):
+    scs = gen_tcp(ctx)
+    for sc, (fail, nontrivial) in zip(scs, pmap(tcp_case, scs, chunksize=4)):
+        res.note_case(("tcp", repr(sc)), nontrivial)
+        res.count("tcp_scenarios_with_link_faults" if nontrivial else "tcp_scenarios_without_effective_fault")
+        if fail:
+            res.failures.append(dict(signature=fail["signature"], what=fail["what"], case=dict(tcp=sc), detail=None))
+
+
 def run(ctx, res):
+    tcp_half(ctx, res)
     scs = gen_schedules(ctx)
     results = pmap(work, scs, chunksize=20)
     coq_cases, coq_status, index = [], [], []
@@ -261,7 +342,7 @@ def run(ctx, res):
                 if si % 16 == 0:
                     st = status_trace(sc[0], k, r["ops"][k], r["ids"][:6])
                     coq_status.append(("(%s, %s, %s)" % (PL.config_coq(cfgk), zs(r["ids"][:6]), common.clist([SD.op_coq(o) for o in r["ops"][k]])), st))
-    res.failures.sort(key=lambda f: len(repr(f["case"]["schedule"])))
+    res.failures.sort(key=lambda f: len(repr(f["case"].get("schedule") or f["case"])))
     res.samples = [dict(n=scs[-1][1], schedule=scs[-1][2][:12])]
     mism, errs = common.coq_run_cases("C04", IMPORTS, "run_decider", "(cdesc * list dop)", coq_cases, shard=120)
     res.errors += errs
@@ -281,6 +362,20 @@ def run(ctx, res):
 
 def replay(obj):
     case = obj.get("case")
+    if case and "tcp" in case:
+        import pC12
+        sc = case["tcp"]
+        sc["cfg"], _ = pC12.norm_case(dict(cfg=sc["cfg"], ops=[]))
+        for _ph, ps in sc["cfg"]["phen"]:
+            for p in ps:
+                p["halt"] = [tuple(x) for x in p["halt"]]
+                for b in p["blocks"]:
+                    b["preds"] = [tuple(x) for x in b["preds"]]
+        sc["steps"] = [tuple(x) for x in sc["steps"]]
+        fail, _ = tcp_case(sc)
+        print("scenario (real engines + real BoboDistributedTCP, link faults, then healing):", sc["steps"])
+        print("oracle  :", fail or "replicas hold the same runs; completions reported everywhere")
+        return 1 if fail else 0
     if not case or "schedule" not in case:
         print(obj)
         return 0
